@@ -301,7 +301,7 @@ def rule_R13_desugar(text):
         a, bo, x, iv, ev = hit
         bc = rsscan.match_close(m, bo)
         k = 'verif_k%d' % n
-        head = 'let mut %s: usize = 0; while %s < %s.len() ' % (k, k, x)
+        head = 'let mut %s: usize = 0; while %s < %s.len() /*@R13 %s.len() - %s @*/ ' % (k, k, x, x, k)
         first = '{ ' + (('let %s = %s; ' % (iv, k)) if iv else '') + 'let %s = &mut %s[%s]; ' % (ev, x, k)
         body = text[bo + 1:bc]
         old = text[a:bc + 1]
@@ -718,7 +718,7 @@ class Generator:
                 op = mt.end() - 1
                 cl = rsscan.match_close(uf.m, op)
                 parts = split_top_commas(uf.m, op + 1, cl)
-                args = [uf.src[x:y].strip() for x, y in parts]
+                args = [re.sub(r'//[^\n]*', '', uf.src[x:y]).strip() for x, y in parts]
                 if args and args[0] == inst:
                     inv = args
                     break
@@ -874,6 +874,12 @@ class Generator:
                 raise Inconclusive('%s: loop %d not found (%d loops)' % (path, k, len(loops)))
             ins.append((loops[k - 1][1], ltext, lline))
             self.clauses += len(re.findall(r'(?m)^\s*(invariant|decreases|ensures)\b|,\s*$', ltext))
+        # R13 loops without their own annotation still need a termination measure
+        for k, (kw, lo) in enumerate(loops, 1):
+            if k not in edit.loops:
+                mk = re.search(r'/\*@R13 (.*?) @\*/', body[kw:lo])
+                if mk:
+                    ins.append((lo, '            invariant %s <= %s.len(), decreases %s' % (mk.group(1).split(' - ')[1], mk.group(1).split('.len()')[0], mk.group(1)), tline))
         for k, (ltext, lline) in edit.afterloops.items():
             if k < 1 or k > len(loops):
                 raise Inconclusive('%s: loop %d not found (%d loops)' % (path, k, len(loops)))
